@@ -3087,10 +3087,11 @@ PPL::Grid::wrap_assign(const Variables_Set& vars,
         // `x' may wrap to a value modulo the `wrap_frequency'.
         add_grid_generator(parameter(wrap_frequency * x));
       }
-      else if (o == OVERFLOW_WRAPS || f_n >= wrap_frequency) {
-        // In these cases, `x' can take at most one value in the range
-        // of the bounded integer type, namely
-        // `min_value + ((v_n - min_value) mod f_n)'.
+      else {
+        // Here either overflow wraps and the grid frequency is the wrap
+        // frequency, or overflow is impossible: compute the smallest
+        // value `min_value + ((v_n - min_value) mod f_n)' that `x' can
+        // take in the range of the bounded integer type.
         v_n -= min_value;
         v_n %= f_n;
         if (v_n < 0) {
@@ -3102,15 +3103,13 @@ PPL::Grid::wrap_assign(const Variables_Set& vars,
           set_empty();
           return;
         }
-        unconstrain(x);
-        add_constraint(x == v_n);
-      }
-      else {
-        // If overflow is impossible but the grid frequency is less than
-        // the wrap frequency, then there may be more than one possible
-        // value for `x' in the range of the bounded integer type,
-        // so the grid is unchanged.
-        PPL_ASSERT(o == OVERFLOW_IMPOSSIBLE && f_n < wrap_frequency);
+        if (v_n + f_n > max_value) {
+          // That is the only value in range: `x' is a constant.
+          unconstrain(x);
+          add_constraint(x == v_n);
+        }
+        // Otherwise there is more than one possible value for `x'
+        // in the range of the bounded integer type: the grid is unchanged.
       }
     }
     return;
